@@ -23,7 +23,7 @@ if has_branch:
         if not subj.startswith("fix:"):
             sys.exit(f"commit {c[:8]} on {branch} does not start with fix: ({subj})")
         out = sh(f"git -C /repo cherry-pick {c}", check=False)
-        if "error" in out.lower() or "conflict" in out.lower():
+        if "CONFLICT" in out or "error: could not apply" in out or "fatal:" in out:
             print(out); sys.exit("cherry-pick conflict — resolve by hand")
         new = sh("git -C /repo rev-parse --short HEAD").strip()
         mapping[c] = new
